@@ -20,8 +20,8 @@ const (
 )
 
 type file struct {
-	Evaluations int64            `json:"evaluations"`
-	Nontrivial  int64            `json:"nontrivial"`
+	Evaluations int64 `json:"evaluations"`
+	Nontrivial  int64 `json:"nontrivial"`
 	// EnumNontrivial counts non-trivial cases that are distinct by
 	// construction (enumerations), reported without digests.
 	EnumNontrivial int64            `json:"enum_nontrivial"`
